@@ -84,10 +84,7 @@
 (***************************************************************************)
 EXTENDS Integers, Sequences, FiniteSets, TLC, Json, IOUtils
 
-CONSTANTS Source,        \* "enum" | "file"
-          MovedDocformat  \* which module's __docformat__ parses the docstring of a FUNCTION moved by a re-export:
-                          \* "new_module" (model.Documentable.reparent sets parentMod of the moved object itself,
-                          \* model.py:278, and epydoc2stan._get_docformat asks obj.module) | "defining_module"
+CONSTANT Source          \* "enum" | "file"
 
 DocFormats == {"epytext", "restructuredtext", "plaintext", "google", "numpy"}
 Docutils == DocFormats \ {"plaintext"}     \* formats rendered through docutils nodes
@@ -103,9 +100,6 @@ Routes ==
     xrefepy    |-> <<"ToNode", "DocutilsEncode", "ParseXml", "LinkLabel", "FlattenInner", "ParseXml", "FlattenToFile">>,
     doctest    |-> <<"ToNode", "Colorize", "FlattenInner", "ParseXml", "FlattenToFile">>,
     rstquote   |-> <<"RstInterpolate", "ToNode", "DocutilsEncode", "ParseXml", "FlattenToFile">>,
-    \* the text of a PLAINTEXT docstring read by the reST parser: a ".. raw:: html" block in it is a raw node whose
-    \* content the HTML writer copies (visit_raw); its tags become elements, the text between them stays as it was
-    rawdirective |-> <<"ToNode", "DocutilsRaw", "ParseXmlTags", "FlattenToFile">>,
     \* :math:`\text{...}` / `\mbox{...}`: docutils math2html copies text-mode content unescaped into the HTML
     \* (visit_math is not overridden in node2stan.py): entity look-alikes are decoded by html2stan
     mathtext   |-> <<"ToNode", "MathToHtml", "ParseXml", "FlattenToFile">> ]
@@ -126,9 +120,7 @@ Stage ==
     Fallback       |-> [from |-> {"lost"},         to |-> "stan", d |-> 0],   \* level := 0, see Apply
     Elide          |-> [from |-> {"lost"},         to |-> "none", d |-> 0],
     RstInterpolate |-> [from |-> {"src"},          to |-> "src",  d |-> 0],
-    DocutilsRaw    |-> [from |-> {"node"},         to |-> "html", d |-> 0],
-    MathToHtml     |-> [from |-> {"node"},         to |-> "html", d |-> 0],
-    ParseXmlTags   |-> [from |-> {"html"},         to |-> "stan", d |-> 0] ]
+    MathToHtml     |-> [from |-> {"node"},         to |-> "html", d |-> 0] ]
 
 \* ----------------------------------------------------------------------------- sinks per source kind
 S(z, c, q) == [zone |-> z, ctx |-> c, quoted |-> q]
@@ -198,10 +190,10 @@ Feeds ==
   \cup { Feed("imagealt", S("docstring", "attr", FALSE), "docutils") }
   \cup { Feed("imagealt", S("docstring", "text", FALSE), "docutils") }
   \* docstrings of a class / its method / a function defined in a `__docformat__ = "plaintext"` module and re-exported
-  \*   by a restructuredtext package: plaintext like doc.plaintext - but see MovedDocformat for the function
+  \*   by a restructuredtext package: the docformat is the one of the module the docstring is written in
+  \*   (Documentable.definingMod, epydoc2stan._get_docformat, fix 01dfc09) - plaintext, like doc.plaintext
   \cup { Feed("reexport.plaintext", S(z, "text", FALSE), "docutils") : z \in SummaryZones }
   \cup { Feed("reexport.plaintext", S("docstring", "text", FALSE), "stan") }
-  \cup { Feed("reexport.plaintext", S("docstring", "text", FALSE), "rawdirective") }
   \* text-mode content of inline math in a reST docstring
   \cup { Feed("mathtext", S("docstring", "text", FALSE), "mathtext") }
   \* options                                                              (pages/__init__.py:182-186)
@@ -214,9 +206,8 @@ Kinds == {f.kind : f \in Feeds}
 Classes == {"plain", "xmlbreak", "linesep"}
 \* a feed only exists for some payload classes
 Active(f, cls) ==
-  /\ (cls = "linesep") => f.kind = "deprecated"           \* elsewhere a line separator is an ordinary character
-  /\ (f.route = "rawdirective") => MovedDocformat = "new_module"
-IsParse(st) == st \in {"ParseXml", "ParseXmlTags"}
+  (cls = "linesep") => f.kind = "deprecated"              \* elsewhere a line separator is an ordinary character
+IsParse(st) == st = "ParseXml"
 FirstParse(r) == CHOOSE i \in 1..Len(r) : IsParse(r[i]) /\ \A j \in 1..(i - 1) : ~IsParse(r[j])
 HasParse(r) == \E i \in 1..Len(r) : IsParse(r[i])
 Cut(r) == SubSeq(r, 1, FirstParse(r) - 1) \o <<"ParseXmlFails">>
@@ -236,7 +227,7 @@ Apply(st, lv) == IF st = "ParseXml" THEN lv - 1
                  ELSE IF st = "Fallback" THEN 0
                  ELSE lv + Stage[st].d
 \* what the wrapped functions report: a raising html2stan is a ParseXml step with level out -3
-ObsStage(st) == IF st \in {"ParseXmlFails", "ParseXmlTags"} THEN "ParseXml" ELSE st
+ObsStage(st) == IF st = "ParseXmlFails" THEN "ParseXml" ELSE st
 ObsOut(st, lv) == IF st = "ParseXmlFails" THEN -3 ELSE Apply(st, lv)
 
 RECURSIVE Walk(_, _, _, _)
@@ -245,7 +236,7 @@ Walk(route, i, lv, c) ==
   IF i > Len(route) THEN <<>>
   ELSE LET st == route[i] IN
        <<[stage |-> ObsStage(st), lin |-> lv, lout |-> ObsOut(st, lv), typed |-> c \in Stage[st].from,
-          raw |-> st \in {"ParseXml", "ParseXmlFails", "ParseXmlTags"} /\ lv = 0]>> \o Walk(route, i + 1, Apply(st, lv), Stage[st].to)
+          raw |-> st \in {"ParseXml", "ParseXmlFails"} /\ lv = 0]>> \o Walk(route, i + 1, Apply(st, lv), Stage[st].to)
 Flow(f, cls) == Walk(RouteSeq(f, cls), 1, 0, "src")
 Reaches(f, cls) == LET r == RouteSeq(f, cls) IN r[Len(r)] = "FlattenToFile"
 Final(f, cls) == LET w == Flow(f, cls) IN w[Len(w)].lout
@@ -280,7 +271,7 @@ Step ==
        /\ cont \in Stage[st].from                       \* WellTyped: a stage only takes what the code gives it
        /\ level' = Apply(st, level)
        /\ cont' = Stage[st].to
-       /\ parsedRaw' = (parsedRaw \/ (st \in {"ParseXml", "ParseXmlFails", "ParseXmlTags"} /\ level = 0))
+       /\ parsedRaw' = (parsedRaw \/ (st \in {"ParseXml", "ParseXmlFails"} /\ level = 0))
        /\ hist' = Append(hist, <<ObsStage(st), level, ObsOut(st, level)>>)
   /\ pc' = pc + 1
   /\ UNCHANGED <<pair, cls>>
@@ -292,10 +283,9 @@ Done == pc = Len(Route) + 1
 
 \* ----------------------------------------------------------------------------- properties (model)
 NeverParsedRaw == ~parsedRaw
-\* open known findings: the invariants hold everywhere else
-KF_MovedFunctionDocformat == Source = "enum" /\ pair.route = "rawdirective"
+\* open known finding math-text-mode-copied-raw: the invariants hold everywhere else
 KF_MathTextCopiedRaw == Source = "enum" /\ pair.route = "mathtext"
-NeverParsedRawExceptKnown == NeverParsedRaw \/ KF_MovedFunctionDocformat \/ KF_MathTextCopiedRaw
+NeverParsedRawExceptKnown == NeverParsedRaw \/ KF_MathTextCopiedRaw
 \* a flow ends in the page at level 1 - or, after an XML error, nowhere; fallback routes included
 SinkLevelOne == (Source = "enum" /\ Done) => ((cont = "file" /\ level = 1) \/ (cont = "none" /\ cls = "xmlbreak"))
 SinkLevelOneExceptKnown == SinkLevelOne \/ KF_MathTextCopiedRaw
